@@ -860,9 +860,18 @@ class Exec(object):
             c.heap_bound[new.val] = st.alloc
             if name.startswith(('HS:', 'INIT:')):
                 a, k = const('a!', INT), const('k!', INT)
-                inreg = or_(*[and_(eq(a, r[2]), le(r[3], k), lt(k, r[4])) for r in rs])
-                body = implies(not_(inreg), eq(select(select(new, a), k), select(select(old, a), k)))
-                c.assume(forall([a, k], body, [select(select(new, a), k)]))
+                # arrays not touched by any region are equal as a whole (no extensionality reasoning needed later)
+                c.assume(forall([a], implies(and_(*[ne(a, r[2]) for r in rs]), eq(select(new, a), select(old, a))), [select(new, a)]))
+                done_arr = set()
+                for r in rs:
+                    if r[2] in done_arr:
+                        continue
+                    done_arr.add(r[2])
+                    same = [q for q in rs if q[2] == r[2]]
+                    others = [q for q in rs if q[2] != r[2]]
+                    inreg = or_(*([and_(le(q[3], k), lt(k, q[4])) for q in same] + [and_(eq(r[2], q[2]), le(q[3], k), lt(k, q[4])) for q in others]))
+                    body = implies(not_(inreg), eq(select(select(new, r[2]), k), select(select(old, r[2]), k)))
+                    c.assume(forall([k], body, [select(select(new, r[2]), k)]))
             else:
                 p = const('p!', INT)
                 inreg = or_(*[eq(p, r[2]) for r in rs])
